@@ -164,6 +164,7 @@ type cellSource struct {
 	t        *tape.Tape
 	fallback uint32 // menu size for unannounced reads
 	maxMenu  uint32
+	rot      func(n uint32) uint32
 	bounds   []uint32
 	outs     []uint32
 	uncal    bool
@@ -210,6 +211,9 @@ func (s *cellSource) NextWord(bound uint32, announced, cont bool) (uint32, error
 		m = s.maxMenu
 	}
 	k := uint32(s.ch.Choose(int(m)))
+	if s.rot != nil && m == n {
+		k = (k + s.rot(n)) % n
+	}
 	s.bounds = append(s.bounds, n)
 	s.outs = append(s.outs, k)
 	w, ok := cal.Rep(n, k)
@@ -237,6 +241,10 @@ type CellOpt struct {
 	Dev       int    // deviation bound (-1: complete product)
 	Chunk     int    // if > 0 the source delivers at most this many bytes per Read call
 	Log       bool   // keep the per-word log on each leaf's tape
+	// Rot, if set, maps choice k of an announced draw with bound n to
+	// outcome (k + Rot(n)) mod n, so that the default choice 0 can stand
+	// for any wanted default outcome.
+	Rot func(n uint32) uint32
 }
 
 // CellStats summarises an exploration.
@@ -257,7 +265,7 @@ func exploreCell(g func() (*spg.Password, error), opt CellOpt, visit func(l *Lea
 	saved := curTape()
 	defer install(saved)
 	for ch.Begin() {
-		src := &cellSource{ch: ch, fallback: opt.Fallback, maxMenu: opt.MaxMenu}
+		src := &cellSource{ch: ch, fallback: opt.Fallback, maxMenu: opt.MaxMenu, rot: opt.Rot}
 		t := tape.New(src)
 		src.t = t
 		t.LogOn = opt.Log
